@@ -1042,7 +1042,10 @@ func directed() []Behaviour {
 	var out []Behaviour
 	chain := func(name string, cfg Cfg, steps ...Step) {
 		for i := range steps {
-			steps[i].A, steps[i].B, steps[i].Par = "pack", i+1, i
+			steps[i].A, steps[i].B = "pack", i+1
+			if steps[i].Par == 0 { // Par k > 0: on block k (a fork); default: on the previous block
+				steps[i].Par = i
+			}
 			if steps[i].Now == 0 {
 				steps[i].Now = 1
 			}
@@ -1059,6 +1062,13 @@ func directed() []Behaviour {
 		// somebody goes offline, comes back; the cached group must follow
 		chain(fmt.Sprintf("pos-online-%d", m), pos, Step{}, Step{P: m, Now: 3}, Step{}, Step{Now: 2}, Step{}, Step{P: m})
 	}
+	// a delayed block: the parent is cached (its owner packed it in time), a sibling that skipped one or two slots is
+	// validated first, then the block of the earlier slot arrives; both under PoS (leader slice shared between cache
+	// entries) and under PoA (candidate slice shared until Update() clones it)
+	for _, late := range []int{2, 3} {
+		chain(fmt.Sprintf("pos-delayed-sibling-%d", late), pos, Step{}, Step{}, Step{Now: late}, Step{Par: 2}, Step{Par: 4}, Step{Par: 3},
+			Step{Par: 5, Now: late}, Step{Par: 5, Now: 2}, Step{Par: 5}, Step{Par: 9})
+	}
 	posT := pos
 	posT.TP, posT.E, posT.Per = 2, 2, 2
 	chain("pos-transition-housekeeping", posT, Step{Txs: []Tx{{"mbp", 0, 4}}}, Step{}, Step{Txs: []Tx{{"sadd", 4, 0}}}, Step{Txs: []Tx{{"sinc", 1, 0}}},
@@ -1070,6 +1080,8 @@ func directed() []Behaviour {
 		chain("poa-endorsor-drained-"+gal, poa, Step{}, Step{Txs: []Tx{{"out", 2, 0}}}, Step{}, Step{P: 3, Now: 2}, Step{Txs: []Tx{{"in", 2, 0}}}, Step{P: 2}, Step{})
 		chain("poa-endorsement-raised-"+gal, poa, Step{}, Step{Txs: []Tx{{"thr", 0, 2}}}, Step{P: 1}, Step{Now: 2}, Step{Txs: []Tx{{"thr", 0, 1}}}, Step{P: 3}, Step{})
 		chain("poa-max-proposers-"+gal, poa, Step{}, Step{Txs: []Tx{{"mbp", 0, 2}}}, Step{P: 1}, Step{P: 2, Now: 2}, Step{Txs: []Tx{{"mbp", 0, 3}}}, Step{P: 3}, Step{})
+		chain("poa-delayed-sibling-"+gal, poa, Step{}, Step{}, Step{Now: 3}, Step{Par: 2}, Step{Par: 4}, Step{Par: 3}, Step{Par: 5, Now: 2}, Step{Par: 5},
+			Step{Par: 8})
 		chain("poa-reverted-and-plain-"+gal, poa, Step{Txs: []Tx{{"reverted", 0, 0}, {"plain", 0, 0}}}, Step{Txs: []Tx{{"add", 1, 0}}}, Step{Txs: []Tx{{"out", 4, 0}}}, Step{P: 2, Now: 3}, Step{})
 	}
 	return out
@@ -1234,7 +1246,7 @@ func main() {
 		res.Shapes = append(res.Shapes, k)
 	}
 	sort.Strings(res.Shapes)
-	sort.Slice(res.Violations, func(i, j int) bool { return res.Violations[i].Run < res.Violations[j].Run })
+	sort.SliceStable(res.Violations, func(i, j int) bool { return res.Violations[i].Run < res.Violations[j].Run })
 	must(trace.WriteNDJSON(filepath.Join(*out, "trace.ndjson"), evs))
 	js, _ := json.MarshalIndent(res, "", " ")
 	must(os.WriteFile(filepath.Join(*out, "results.json"), js, 0o644))
